@@ -39,6 +39,7 @@ class Probe(urwid.Widget):
         self.accept = accept  # None = every cell; else callable(x, y, c, r) -> bool
         self.keys = frozenset(keys)  # keys this probe handles
         self.log: list = []
+        self.rows_log: list = []  # sizes rows() was asked at
 
     def __repr__(self):
         return f"<Probe {self.name}>"
@@ -57,6 +58,7 @@ class Probe(urwid.Widget):
         return (size[0], size[1])
 
     def rows(self, size, focus=False):
+        self.rows_log.append(tuple(size))
         return self.nat[1] + (self.focus_extra if focus else 0)
 
     def pack(self, size=(), focus=False):
